@@ -9,7 +9,7 @@ model of `to_json_dict` and the builder's reading of its output (see the file fo
 Check, for every generated form (c16_gen: group logic, extra choice columns, parameters, translations,
 media, settings, triggers, type-table hints):
   path 1  workbook → `_pyxform` dict → json.dumps → json.loads → create_survey_element_from_dict → XForm
-          must equal the direct conversion, and the loaded dict must equal the dumped one;
+          must equal the direct conversion (whether the loaded dict equals the dumped one is only recorded);
   path 2  survey → to_json_dict → json.dumps → create_survey_element_from_json → (a) to_json_dict equal to
           the first dump (dump, load, dump), (b) XForm equal to the original's.
   Oracle = text equality of XForms / equality of dicts; a difference is broken down by c16_obs.diff_items
@@ -98,8 +98,8 @@ def run_paths(form: dict) -> dict:
         t0 = json.dumps(pyx)
         out["t0"] = t0
         d1 = json.loads(t0)
-        if d1 != pyx:
-            P.append(("p1-dict", "json.loads(json.dumps(_pyxform)) != _pyxform", None))
+        # not demanded by the property (a tuple would come back as a list): recorded in the evidence only
+        out["p1_dict_identical"] = d1 == pyx
         s1 = create_survey_element_from_dict(d1)
         x1 = to_xml(s1)
         if x1 != x0:
@@ -365,6 +365,8 @@ def form_case(ctx, form, origin="gen", model=True):
     feats = features_of(form)
     for f in feats + form.get("_features", []):
         ctx.count("feature:" + f)
+    if obs.get("p1_dict_identical") is False:
+        ctx.count("note:loaded-workbook-dict-not-identical")
     if obs.get("dump_after_xml_equal") is False:
         ctx.count("note:dump-after-xml-differs(F36-class)")
     clean = True
@@ -596,6 +598,13 @@ def directed_forms():
                                            {"type": "image", "name": "i", "label": "I", "default": "a.png"}]}
     yield "loop", {"survey": [{"type": "begin loop over l", "name": "lp", "label": "L"}, {"type": "text", "name": "q", "label": "Q %(label)s"},
                               {"type": "end loop"}], "choices": ch[1:]}
+    # languages / custom attributes named like keys that to_json_dict deletes at the top level: nested dicts
+    # must keep them (the key collection handed to the recursive calls is an exhausted iterator)
+    yield "nested-keys-named-like-deleted-keys", {"survey": [
+        {"type": "begin group", "name": "g", "label::parent": "G", "label::extra_data": "G2"},
+        {"type": "text", "name": "q", "label::parent": "Q", "label::extra_data": "Q2", "hint::parent": "H", "bind::hint": "x",
+         "bind::control": "y", "body::bind": "z", "instance::parent": "w"},
+        {"type": "end group"}]}
     yield "group-appearance-only", {"survey": [{"type": "begin group", "name": "g", "label": "G", "appearance": "field-list"},
                                                {"type": "select_one l", "name": "s", "label": "S", "parameters": "randomize=true seed=3"},
                                                {"type": "end group"}], "choices": ch[1:]}
